@@ -87,6 +87,12 @@ impl ExtendedPrivateKey {
         let mut checksum = vec![0; 4];
         cursor.read_exact(&mut checksum)?;
 
+        // The payload is followed by the first 4 bytes of its double SHA256
+        let payload_end = cursor.position() as usize - 4;
+        if checksum != Hash::sha_256d(&cursor.get_ref()[0..payload_end]).to_bytes()[0..4] {
+            return Err(BSVErrors::GenericError("Invalid xprv checksum".into()));
+        }
+
         Ok(ExtendedPrivateKey {
             private_key,
             public_key,
